@@ -87,6 +87,11 @@ func (e extractor) extract(node ast.Node) {
 		if err := pomsg.Validate(node); err != nil {
 			exit(err)
 		}
+		// an empty message has nothing to translate (and the empty msgid is
+		// the catalogue's header entry).
+		if len(node.Body.Children()) == 0 {
+			return
+		}
 		var pluralVar = ""
 		if plural, ok := node.Body.Children()[0].(*ast.MsgPluralNode); ok {
 			pluralVar = " var=" + plural.VarName
